@@ -83,6 +83,7 @@ PLANS = {
                           "(c08_fifo: tagged FIFO exchange A<->peer; c08_hops: a hop-header batch from the raw wire peer)",
         "budget_s": {"quick": 50, "thorough": 900},
         "scenarios": [
+            S("c18_preconnect", 400, 12000, label="preconnect"),  # PAIR send order across a connection that comes up while messages wait
             S("c08_fifo", 1600, 48000),
             S("c08_hops", 900, 27000),
             S("c08_race", 3000, 60000),    # several peers connect at the same instant through different endpoints (scenarios/c08b_race.cc)
@@ -129,6 +130,7 @@ PLANS = {
                           "full comparison (single-task model-based sequence test, no interleaving claimed)",
         "budget_s": {"quick": 50, "thorough": 900},
         "scenarios": [
+            S("c18_preconnect", 600, 18000),  # messages accepted while no peer is connected leave before the ones sent after the peer connected (scenarios/c18c_preconnect.cc, round-4 seeded C18_9)
             S("c18_fifo_seq", 1000, 30000),
             S("c18_fifo_conc", 600, 18000),
             S("c18_ids", 400, 12000),
